@@ -23,6 +23,7 @@ RULE = (
     "present or value >= 10^6. lines/e2e: Hypothesis-generated padded lines with long digit strings and "
     "whole charts parsed with Chart.from_file; non-trivial iff >= 2 kinds of sync line with a "
     "non-multiple-of-1000 tempo."
+    ' A quarter of the whole-chart cases have junk, blank and foreign lines between the sync lines.'
 )
 ASSUMPTIONS = [
     "n/1000 computed by CPython int/int true division is the float nearest to the rational n/1000",
